@@ -25,7 +25,9 @@ BlockMenu == <<
   << <<"deconv", 1, FALSE, <<3, 5>>>>, <<"conv", 2, FALSE, <<5, 3>>>>, <<"conv", 1, FALSE>> >>,
   \* dense layers of different widths with mixed bias (3 -> 5 with bias, 5 -> 3 without; 4 -> 2 without, 2 -> 4 with)
   << <<"dense", 5, TRUE>>, <<"dense", 3, FALSE>> >>,
-  << <<"dense", 2, FALSE>>, <<"dense", 4, TRUE>> >>
+  << <<"dense", 2, FALSE>>, <<"dense", 4, TRUE>> >>,
+  \* a deconvolution whose filter count differs from its input channel count (1 -> 2 channels, then 2 -> 1)
+  << <<"conv", 2, FALSE>>, <<"deconv", 1, FALSE>> >>
 >>
 \* parameters of one layer: dense out * in (+ out), where `in` is the width the previous layer produces (the block is a
 \* cycle: the first layer consumes what the last one produces); conv/deconv filters * channels * kh * kw
